@@ -39,6 +39,7 @@ class SurfaceSubdivision(Logger):
     def __init__(self, mesh : SurfaceMesh, verbose:bool = False):
         super().__init__("SurfaceSubdivision", verbose)
         self.mesh = mesh
+        self._input_mesh = mesh
 
     def __enter__(self):
         self.mesh = RawMeshData(self.mesh)
@@ -47,6 +48,8 @@ class SurfaceSubdivision(Logger):
 
     def __exit__(self, exc_type, exc_val, exc_tb):
         self.mesh.prepare()
+        # the mesh given to the editor is rebuilt on the subdivided data as well (containers, fresh connectivity, no cached boundary data)
+        self._input_mesh.__init__(self.mesh)
         self.mesh = _instanciate_raw_mesh_data(self.mesh, 2)
 
     @allowed_mesh_types(SurfaceMesh)
@@ -245,6 +248,7 @@ class VolumeSubdivision(Logger):
     def __init__(self, mesh : VolumeMesh, verbose:bool=False):
         super().__init__("VolumeSubdivision", verbose=verbose)
         self.mesh = mesh
+        self._input_mesh = mesh
         self.conn = None # connectivity
 
     def __enter__(self):
@@ -256,6 +260,8 @@ class VolumeSubdivision(Logger):
 
     def __exit__(self, exc_type, exc_value, tb):
         self.mesh.prepare()
+        # the mesh given to the editor is rebuilt on the subdivided data as well (containers, fresh connectivity, no cached boundary data)
+        self._input_mesh.__init__(self.mesh)
         self.mesh = _instanciate_raw_mesh_data(self.mesh, 3)
 
     def split_cell_as_fan(self, cell_id:int):
